@@ -250,11 +250,17 @@ func TestWireChunk(t *testing.T) {
 			targets = append(targets, target{"protobuf", protoSer, proBytes, pro})
 		}
 		for _, tg := range targets {
-			// reference: unchunked decode must work, otherwise this is not a chunking matter
+			// reference: every envelope decoded ALONE from exactly its own bytes, delivered at once
+			// (if that fails it is not a chunking matter but C14's)
 			ref := make([]string, 0, len(want))
-			rd := newChunkReader(tg.data, []int{len(tg.data)})
 			refOK := true
-			for range c.Envs {
+			for k := range c.Envs {
+				lo := tg.lay.start[k]
+				hi := len(tg.data)
+				if k+1 < len(tg.lay.start) {
+					hi = tg.lay.start[k+1]
+				}
+				rd := newChunkReader(tg.data[lo:hi], []int{hi - lo})
 				var env *wire.Envelope
 				err, pan := guard(func() error { var e error; env, e = tg.ser.Decode(rd); return e })
 				if err != nil || pan != "" {
@@ -305,6 +311,15 @@ func TestWireChunk(t *testing.T) {
 							fail = fmt.Sprintf("envelope %d/%d (%s): error %q after %d of %d bytes", k+1, len(c.Envs), mts[k], short(err.Error(), 200), rd.pos, len(tg.data))
 							break
 						}
+						end := len(tg.data)
+						if k+1 < len(tg.lay.start) {
+							end = tg.lay.start[k+1]
+						}
+						if rd.pos != end {
+							// stop here: decoding the next envelope from a desynchronised stream means decoding garbage
+							fail = fmt.Sprintf("decoding envelope %d/%d (%s) consumed the stream up to byte %d, the envelope ends at byte %d (bytes of the next envelope are lost / left over)", k+1, len(c.Envs), mts[k], rd.pos, end)
+							break
+						}
 						var got string
 						if _, pan := guard(func() error { got = canon(w.pEnv(env)); return nil }); pan != "" || got != ref[k] {
 							fail = fmt.Sprintf("envelope %d/%d (%s) decodes to another envelope than from the unchunked stream (difference at %s)", k+1, len(c.Envs), mts[k], firstDiff(ref[k], got))
@@ -329,7 +344,7 @@ func TestWireChunk(t *testing.T) {
 							}
 						}
 						res.Violate("C16", "monitor", "chunking|"+tg.name+"|"+kind,
-							fmt.Sprintf("%s serializer (%s): a stream of %d envelope(s) %v (%d bytes) that decodes when delivered at once does not decode when delivered as '%s' (n=%d, cuts %v; %d chunks, first sizes %v): %s",
+							fmt.Sprintf("%s serializer (%s): a stream of %d envelope(s) %v (%d bytes), each of which decodes from its own bytes, does not decode when delivered as '%s' (n=%d, cuts %v; %d chunks, first sizes %v): %s",
 								tg.name, via, len(c.Envs), mts, len(tg.data), s.Name, s.N, s.Cuts, len(chunks), head, fail), rp)
 					}
 				}
